@@ -41,7 +41,24 @@ func violation(h *collh.History) lib.Violation {
 	return lib.Violation{Clause: "immutability",
 		What: fmt.Sprintf("step %d (%s) changed the %s of v%d (obtained by %s): before %s, after %s", c.Step, h.Ops[c.Step].String(),
 			c.What, c.Value, h.Ops[c.Value].String(), c.Before, c.After),
-		Input: input(h.Ops[:c.Step+1])}
+		Input: input(h.Ops[:c.Step+1]),
+		// one group per (offending operation, kind of its receiver), so that each defect keeps its examples
+		Tags: []string{h.Ops[c.Step].Kind + "@" + recvKind(h, c.Step)}}
+}
+
+func recvKind(h *collh.History, step int) string {
+	o := h.Ops[step]
+	if o.R < len(h.Outs) && h.Outs[o.R].V != nil {
+		switch h.Outs[o.R].V.K {
+		case "a":
+			return "array"
+		case "h":
+			return "hash"
+		case "e":
+			return "entry"
+		}
+	}
+	return "value"
 }
 
 // usable for the model tie: the model compares keys structurally (see ref.go on Ambiguous), and knows
@@ -200,102 +217,6 @@ func corpus() [][]collh.Op {
 		// nested: the changed array is an element of another value
 		{{Kind: "Build", I: 4, P: A(I(1))}, lit(I(2)), lit(I(3)), {Kind: "Add", R: 0, X: 1}, {Kind: "Lit", P: A()}, {Kind: "Add", R: 4, X: 3}, {Kind: "Add", R: 0, X: 2}},
 	}
-}
-
-// exhaustive: all histories of `depth` operations over the letters below, on three seed preludes.  The
-// receiver of a letter is the seed collection or the most recent result of the same kind.
-func exhaustive(r *runner) {
-	I, S, A, E, H := collh.In, collh.St, collh.Ar, collh.En, collh.Ha
-	abc := H(E(S("a"), I(1)), E(S("b"), I(2)), E(S("c"), I(3)))
-	type prelude struct {
-		ops  []collh.Op
-		arr  int
-		hash int
-	}
-	// pool: 0 array, 1 hash, 2 scalar 7, 3 scalar 8, 4 array [7,8], 5 key "a", 6 key list [a c], 7 hash {b=>9,d=>4}, 8 entry (a=>5)
-	common := []collh.Op{{Kind: "Lit", P: I(7)}, {Kind: "Lit", P: I(8)}, {Kind: "Lit", P: A(I(7), I(8))}, {Kind: "Lit", P: S("a")},
-		{Kind: "Lit", P: A(S("a"), S("c"))}, {Kind: "Lit", P: H(E(S("b"), I(9)), E(S("d"), I(4)))}, {Kind: "Lit", P: E(S("a"), I(5))}}
-	pre := []prelude{
-		{ops: append([]collh.Op{{Kind: "Build", I: 6, P: A(I(1), A(I(2)), I(1))}, {Kind: "Build", I: 6, P: abc}}, common...)},
-		{ops: append([]collh.Op{{Kind: "Parse", P: A(I(1), A(I(2)), I(1))}, {Kind: "Parse", P: abc}}, common...)},
-		{ops: append([]collh.Op{{Kind: "Lit", P: A(I(1), A(I(2)), I(1))}, {Kind: "Lit", P: abc}}, common...)},
-	}
-	depth := 3
-	budget := 500
-	if r.cfg.Thorough() {
-		depth = 4
-		budget = 4000
-	}
-	type letter struct {
-		op   collh.Op
-		hash bool
-	}
-	letters := []letter{
-		{op: collh.Op{Kind: "Add", X: 2}}, {op: collh.Op{Kind: "Add", X: 3}}, {op: collh.Op{Kind: "AddAll", X: 4}},
-		{op: collh.Op{Kind: "Slice", I: 0, J: 1}}, {op: collh.Op{Kind: "Slice", I: 1, J: 2}}, {op: collh.Op{Kind: "EachSlice", I: 2, J: 0}},
-		{op: collh.Op{Kind: "Delete", X: 2}}, {op: collh.Op{Kind: "Select", Pd: &collh.Pred{Kind: "int"}}},
-		{op: collh.Op{Kind: "Reject", Pd: &collh.Pred{Kind: "eq", X: 2}}}, {op: collh.Op{Kind: "Flatten"}}, {op: collh.Op{Kind: "Unique"}},
-		{op: collh.Op{Kind: "Map", Mp: &collh.Mapper{Kind: "id"}}}, {op: collh.Op{Kind: "At", I: 1}},
-		{op: collh.Op{Kind: "Delete", X: 5}, hash: true}, {op: collh.Op{Kind: "DeleteAll", X: 6}, hash: true},
-		{op: collh.Op{Kind: "Merge", X: 7}, hash: true}, {op: collh.Op{Kind: "Slice", I: 0, J: 2}, hash: true},
-		{op: collh.Op{Kind: "Add", X: 8}, hash: true}, {op: collh.Op{Kind: "Get", X: 5}, hash: true},
-		{op: collh.Op{Kind: "Keys"}, hash: true}, {op: collh.Op{Kind: "SelectPairs", Pd: &collh.Pred{Kind: "eq", X: 5}}, hash: true},
-	}
-	// number of leaves, to sample evenly into the Coq file
-	n := 0
-	for d, p := 1, 1; d <= depth; d++ {
-		p *= len(letters) * 2
-		n += p
-	}
-	n *= len(pre)
-	stride := n/budget + 1
-	idx := 0
-	for _, p := range pre {
-		var rec func(ops []collh.Op, lastArr, lastHash, d int)
-		rec = func(ops []collh.Op, lastArr, lastHash, d int) {
-			if d > 0 {
-				idx++
-				r.check(ops, idx%stride == 0, "exhaustive")
-			}
-			if d == depth {
-				return
-			}
-			for _, l := range letters {
-				for _, recent := range []bool{false, true} {
-					o := l.op
-					if l.hash {
-						o.R = 1
-						if recent {
-							o.R = lastHash
-						}
-					} else {
-						o.R = 0
-						if recent {
-							o.R = lastArr
-						}
-					}
-					if recent && d == 0 {
-						continue
-					}
-					next := append(append([]collh.Op{}, ops...), o)
-					la, lh := lastArr, lastHash
-					// kind of the result (statically known for these letters)
-					switch {
-					case o.Kind == "At" || o.Kind == "Get":
-					case l.hash && o.Kind != "Keys":
-						lh = len(ops)
-					default:
-						la = len(ops)
-					}
-					rec(next, la, lh, d+1)
-				}
-			}
-		}
-		rec(p.ops, 0, 1, 0)
-	}
-	r.res.Extra["exhaustive_histories"] = idx
-	r.res.Extra["exhaustive_depth"] = depth
-	r.res.Extra["exhaustive_letters"] = len(letters)
 }
 
 func random(r *runner, rng *lib.Rng) {
